@@ -144,3 +144,55 @@ def sweep_clock(base, agg, opts):
         rec["clock_events"] = [{"op": o["id"], "at": 0, "delta": -3600 * 10**9}]
         w = run_record(rec)
         agg.add_world(w, tag="back@%s" % o["id"])
+
+
+# ---------------------------------------------------------------- small scope (C18)
+SMALL_KEYS = [
+    {"scheme": "sim", "res": "r0", "comment": "", "pp": False, "val": False},
+    {"scheme": "sim", "res": "r1", "comment": "", "pp": False, "val": False},
+    {"scheme": "sim", "res": "r1", "comment": "c1", "pp": True, "val": False},
+]
+SMALL_SIZES = {"r0": 300, "r1": 500}
+SMALL_OPS = [
+    {"op": "GET", "keys": [0]}, {"op": "GET", "keys": [1]}, {"op": "GET", "keys": [0, 1]}, {"op": "GET", "keys": [1, 2]},
+    {"op": "GET", "keys": [2, 0, 1]}, {"op": "REMOVE", "key": 0}, {"op": "PURGE"}, {"op": "REOPEN", "size": None, "evict": False},
+    {"op": "TOUCH", "key": 0}, {"op": "AGE", "key": 1, "delta": -3600 * 10**9}, {"op": "FOREIGN", "name": "@k0.bak", "size": 10, "age": 0},
+    {"op": "USER_READ", "key": 0},
+]
+SMALL_LIMITS = [100, 520, 830, 1400]  # enlarge always / one file / two files / everything fits
+SMALL_CLOCKS = [{"policy": "fine", "gran": 1}, {"policy": "frozen", "gran": 1}]
+
+
+def smallscope_size(max_len=3):
+    n = sum(len(SMALL_OPS) ** k for k in range(1, max_len + 1))
+    return n * len(SMALL_LIMITS) * len(SMALL_CLOCKS) * 2
+
+
+def smallscope_record(index, max_len=3):
+    """index -> record: every operation sequence of length <= max_len over SMALL_OPS x limit x clock x mode."""
+    nops = len(SMALL_OPS)
+    par = index % 2
+    index //= 2
+    ck = SMALL_CLOCKS[index % len(SMALL_CLOCKS)]
+    index //= len(SMALL_CLOCKS)
+    lim = SMALL_LIMITS[index % len(SMALL_LIMITS)]
+    index //= len(SMALL_LIMITS)
+    length = 1
+    while index >= nops ** length:
+        index -= nops ** length
+        length += 1
+    seq = []
+    for _ in range(length):
+        seq.append(index % nops)
+        index //= nops
+    ops = []
+    for i, j in enumerate(seq):
+        o = dict(SMALL_OPS[j])
+        o["id"] = i
+        o["dt"] = 10**6
+        ops.append(o)
+    return {"property": "C18", "seed": 777, "knobs": {
+        "keys": [dict(k) for k in SMALL_KEYS], "res_sizes": dict(SMALL_SIZES), "max_bytes": lim, "size_class": "small",
+        "parallel": bool(par), "allow_missing": True, "api": "object", "clock": dict(ck), "atime": "relatime",
+        "listing": "sorted", "sched": {"policy": "uniform"} if par else {"policy": "none"}, "chunk": 4096, "bufsize": 8192,
+        "evict_on_startup": False}, "ops": ops, "faults": [], "crash": None, "clock_events": []}
